@@ -322,6 +322,22 @@ func (k *c15) setFcStage() {
 	c.Count("setfc")
 	saved := kept
 	c.Correspond("soilparams.setfc", cases, impl, 1e-9, 1e-12, func(i int) interface{} { return saved[i] })
+	// the same states through the Lean translation of the current source of setFieldCapacityWithGW (translator v2)
+	var sic []srcImpCase
+	for i := range kept {
+		if i >= c.N(1500, 20000) {
+			break
+		}
+		s := kept[i]
+		g := hermes.NewGlobalVarsMain()
+		g.GRW, g.N = s.Grw, s.N
+		for z := 0; z < s.N; z++ {
+			g.W[z], g.PORGES[z] = s.W[z], s.Por[z]
+		}
+		gg := &g
+		sic = append(sic, srcImpCase{Recv: map[string]interface{}{"g": gg}, Params: map[string]interface{}{}, Call: func() { hermes.VerifSetFieldCapacityWithGWOn(gg) }, Desc: s})
+	}
+	correspondSrcImp(c, "setFieldCapacityWithGW", sic, 1e-9, 1e-12)
 }
 
 // ---------------------------------------------------------------- whole runs
